@@ -76,6 +76,16 @@ EvalCore(X) ==
   ELSE IF Len(Y) = 3 /\ IsNum(Y[1]) /\ IsS(Y[2], 47) /\ IsNum(Y[3]) THEN FDiv(IF neg THEN FNeg(Val(Y[1])) ELSE Val(Y[1]), Val(Y[3]))
   ELSE NoValue
 EvalX(X) == IF Len(X) >= 2 /\ IsS(X[1], 40) /\ IsS(X[Len(X)], 41) THEN EvalCore(SubSeq(X, 2, Len(X) - 1)) ELSE EvalCore(X)
+\* `return L ^ 2` as written: the value of what the text means -- a minus sign in front of an unparenthesised numeral applies
+\* to the POWER (`-0 ^ 2` is -(0 ^ 2)), a parenthesised operand is evaluated first
+Two == FOfDecimal("2")
+EvalPow(v) ==
+  IF Len(v) < 4 \/ v[1] # KW("return") \/ ~IsS(v[Len(v) - 1], 94) \/ ~IsNum(v[Len(v)]) \/ Val(v[Len(v)]) # Two THEN NoValue
+  ELSE LET L == SubSeq(v, 2, Len(v) - 2) IN
+       IF Len(L) >= 2 /\ IsS(L[1], 40) /\ IsS(L[Len(L)], 41) THEN (IF EvalX(L) = NoValue THEN NoValue ELSE FPow(EvalX(L), Two))
+       ELSE IF Len(L) = 1 /\ IsNum(L[1]) THEN FPow(Val(L[1]), Two)
+       ELSE IF Len(L) = 2 /\ IsS(L[1], 45) /\ IsNum(L[2]) THEN FNeg(FPow(Val(L[2]), Two))
+       ELSE NoValue
 JudgeNum(o) ==
   LET d == <<o.hi, o.lo>> IN
   LET lexed == [k \in 1..Len(o.outs) |-> IF o.outs[k].status = "ok" THEN Lex(B(o.outs[k].out), TRUE) ELSE [ok |-> FALSE, toks |-> <<>>]] IN
@@ -86,9 +96,10 @@ JudgeNum(o) ==
         /\ lexed[k].ok
         /\ IF o.outs[k].ctx \in {"ret", "from"}
            THEN Len(views[k]) >= 2 /\ views[k][1] = KW("return") /\ EvalX(SubSeq(views[k], 2, Len(views[k]))) = d
+           ELSE IF o.outs[k].ctx = "pow" THEN EvalPow(views[k]) = FPow(d, Two)
            ELSE \E X \in Xs : views[k] = Template("num", o.outs[k].ctx, X) IN
   LET bad == {k \in 1..Len(o.outs) : ~good(k)} IN
-  LET valbad == {k \in bad : o.outs[k].ctx \in {"ret", "from"}} IN
+  LET valbad == {k \in bad : o.outs[k].ctx \in {"ret", "from", "pow"}} IN
   [id |-> o.id, kind |-> o.kind, ok |-> bad = {} /\ plain # {}, n |-> Len(o.outs), okv |-> [k \in 1..Len(o.outs) |-> k \notin bad],
    luau_ok |-> \A k \in 1..Len(o.outs) : lexed[k].ok, l51_ok |-> TRUE, exempt51 |-> FALSE,
    value_ok |-> valbad = {} /\ plain # {}, model_ok |-> TRUE, undecided |-> FALSE]
